@@ -279,7 +279,16 @@ def run_case(case, ctx):
     elif case['ending'] == 'case_below_regular_file':
         target = os.path.join(d, name, 'x.case')
     full_argv = margv + argv + [target]
-    r = ses.run(full_argv, cwd=d, mode=mode)
+    # every third case: started from a directory that is not an ancestor of the (absolute) case file
+    run_cwd = d
+    if (len(name) + case['act_rc'] + len(case['ending'])) % 3 == 0 and case['ending'] not in ('unknown_option',) \
+            and not any(a.startswith('./') for a in argv):
+        run_cwd = os.path.join(ctx.scratch, 'c02-elsewhere')
+        os.makedirs(run_cwd, exist_ok=True)
+        ctx.count('c02.started_from_another_directory')
+        full_argv = margv + [os.path.join(d, a) if (a.endswith('.suite') and not os.path.isabs(a)) else a for a in argv] \
+            + [target]
+    r = ses.run(full_argv, cwd=run_cwd, mode=mode)
     exp = expected(case)
     viol = []
 
